@@ -997,6 +997,9 @@ class Engine:
         from . import builtins as B
         if isinstance(f, VFunc):
             if f.kind == "closure":
+                con = self.nested_contract(f.a)
+                if con is not None:
+                    return self.apply_contract(st, con, pos, kw)      # a nested function that is itself under contract: modular
                 return self.call_closure(st, f.a, f.b, pos, kw)
             if f.kind == "builtin":
                 return B.BUILTINS[f.a](self, st, pos, kw)
@@ -1044,6 +1047,23 @@ class Engine:
             if r is not None:
                 return r
         raise Unsupported(f"call of {f!r}"[:300])
+
+    def nested_contract(self, fn):
+        """The contract of a function NESTED in the function under verification (qualified name `<outer>.<name>`, same module, the
+        very FunctionDef node that is being called), if it has one and has no free variables of its own (`closure=`): a call of it
+        is then replaced by its contract, like any other call; otherwise None (the nested function is inlined)."""
+        cur = self.cur_contract
+        if cur is None or not isinstance(fn, ast.FunctionDef):
+            return None
+        qual = f"{cur.qual}.{fn.name}"
+        for con in self.reg.contracts.values():
+            if con.module == cur.module and con.qual == qual and not con.closure and con.key not in self.reg.inline:
+                try:
+                    if source.module(con.module).find(con.qual) is fn:
+                        return con
+                except KeyError:
+                    pass
+        return None
 
     def construct(self, st, clsname, pos, kw):
         from . import builtins as B
